@@ -172,6 +172,7 @@ class Engine:
         self.uf: dict[str, z3.FuncDeclRef] = {}
         self.extra_axioms: list = []
         self.measure_arrays: dict[str, object] = {}
+        self.exists_mem_patterns = False               # contract option: any(... for x in seq) gets the pattern Mem(seq, x)
         self.spec_default_reads = False                 # contract option: d[k] in a specification reads a defaultdict as `get(k, 0)`
         self._native_mods: dict[str, object] = {}
         self.fmt_templates: dict[str, z3.FuncDeclRef] = {}
@@ -1253,8 +1254,8 @@ class Engine:
             if pats:
                 return QForAll([var], full, patterns=pats)
             return QForAll([var], full)
-        if kind == "seq":
-            # the negated form (a universal) is instantiated on the members of the sequence
+        if kind == "seq" and self.exists_mem_patterns:
+            # contract option: the negated form (a universal) is instantiated on the members of the sequence
             try:
                 return z3.Exists([var], z3.And(guard, body), patterns=[dom])
             except z3.Z3Exception:
